@@ -216,6 +216,30 @@ def rule_port(P):
     return r
 
 
+def rule_cachettl(P):
+    r = Rule("C38-cachettl", "K3/K8", "every store of addresses into a cache entry is followed by arming that entry's expiry timer with the answer's TTL", floor=1)
+    f = P.fn("evdns_cache_write")
+    ttlp = [n for n, t in f.params if n == "ttl"]
+    sts = [el for el, lhs, op, rhs in f.stores() if fields_of(lhs)[-1:] == ["evdns_cache.ai"]]
+    adds = [el for el in f.calls() if callee_name(el.e) in ("event_add", "evtimer_add") and any(is_e(q, "fld") and q[2] == "evdns_cache.ev_timeout" for q in walk(el.e[2][0]))]
+    for st in sts:
+        w = f.exit_reachable_avoiding(st.pos(), lambda x: x in adds)
+        tv_ok = False
+        for a in adds:
+            tv = strip(a.e[2][1])
+            tvv = strip(tv[1]) if is_e(tv, "addr") else tv
+            if is_e(tvv, "var") and ttlp:
+                tv_ok = tv_ok or any(op == "=" and root_var(lhs) is not None and root_var(lhs)[1] == tvv[1] and fields_of(lhs)[-1:] == ["timeval.tv_sec"] and eq(strip(rhs), ["var", ttlp[0], "param"])
+                                     for el, lhs, op, rhs in f.stores())
+        r.inst(("store", st.n), {"site": st.where(), "timer_armed_after": [a.where() for a in adds], "exit_without_arming": bool(w), "with_answer_ttl": tv_ok})
+        if w is not None or not adds or not tv_ok:
+            r.bad("K3:evdns_cache_write:entry-without-expiry", st.where(), f.name,
+                  "addresses are stored into a cache entry on a path that does not (re-)arm the entry's expiry timer with this answer's TTL: the entry outlives the TTL of what it holds")
+    if not sts:
+        r.brk("no store to evdns_cache.ai in evdns_cache_write")
+    return r
+
+
 def run(ctx, config):
     P = ctx.prog(UNITS, config)
-    return [rule_precedence(P), rule_port(P)]
+    return [rule_precedence(P), rule_port(P), rule_cachettl(P)]
